@@ -241,12 +241,16 @@ class MediaRequestBase(RequestHandlerBase):
                 logging.debug('creating emsg boxes')
                 moof_idx = atom.index('moof')
                 for evgen in event_generators:
-                    boxes = evgen.create_emsg_boxes(
-                        moof=atom.moof,
-                        adaptation_set=adp_set,
-                        segment_num=seg_num,
-                        mod_segment=mod_segment,
-                        representation=representation)
+                    try:
+                        boxes = evgen.create_emsg_boxes(
+                            moof=atom.moof,
+                            adaptation_set=adp_set,
+                            segment_num=seg_num,
+                            mod_segment=mod_segment,
+                            representation=representation)
+                    except ValueError as err:
+                        logging.warning('Invalid event parameters: %s', err)
+                        return flask.make_response('Invalid CGI parameters', 400)
                     # the emsg boxes must be inserted before the
                     # moof box (see DASH section 5.10.3.3)
                     for idx, emsg in enumerate(boxes):
